@@ -307,6 +307,7 @@ Section PosQ.
       exists x0 w0,
         static_new A azero V silence identity P pcenter fuel sr (audio_source A azero audio) slice g = Ok x0 /\
         stream_new A azero V silence identity P pcenter audio land sr slice g = Ok w0 /\
+        sh_pos (x_core x0) = y_pos (z_core (w_sound w0)) /\ h_mirror (x_shell x0) = h_mirror (z_shell (w_sound w0)) /\
         forall ys,
           run_stream powf A azero F interp cast ascale V vinterp silence identity amp P pinterp panned fuel
                      audio psize land cap w0 evs = Ok (ys, false) ->
@@ -316,8 +317,8 @@ Section PosQ.
   Proof.
     intros WF Hsr psize land evs Hrates Hdts.
     destruct (simulation powf A azero F interp cast ascale V vinterp silence identity amp P pinterp pcenter panned fuel
-                         audio cap sr slice g B WF psize land evs Hrates) as (x0 & w0 & Hx & Hw & Hsim).
-    exists x0, w0. split; [exact Hx|]. split; [exact Hw|]. intros ys Hrun.
+                         audio cap sr slice g B WF psize land evs Hrates) as (x0 & w0 & Hx & Hw & Hp0 & Hs0 & Hsim).
+    exists x0, w0. split; [exact Hx|]. split; [exact Hw|]. split; [exact Hp0|]. split; [exact Hs0|]. intros ys Hrun.
     destruct (Hsim ys Hrun) as (xs & Hxs & Hrel). exists xs. split; [exact Hxs|].
     assert (Hok : w_ok A V P w0).
     { unfold stream_new in Hw.
